@@ -7,6 +7,6 @@ CONSTANTS
   MaxOps = 8
   Slack = 0
   UseResult = TRUE
-  Recheck = TRUE
+  Recheck = FALSE
 INVARIANTS TypeOK NoOrphan Reclaimed FreeIsEmpty NoStale
 CHECK_DEADLOCK FALSE
